@@ -14,8 +14,8 @@ type vSliceIter struct {
 	pos  int
 }
 
-func (it *vSliceIter) IsValid() bool  { return it.pos < len(it.objs) }
-func (it *vSliceIter) Next()          { it.pos++ }
+func (it *vSliceIter) IsValid() bool { return it.pos < len(it.objs) }
+func (it *vSliceIter) Next()         { it.pos++ }
 func (it *vSliceIter) Current() *vObj {
 	if it.pos < len(it.objs) {
 		return it.objs[it.pos]
